@@ -1,10 +1,24 @@
 """helpers around the tatsu public API: canonical outcomes, wrapper rule, generated parsers"""
 from __future__ import annotations
 
+import os
 import sys
 import types
 
 WRAP = "\nVF_WRAP: v=%s rest=VF_REST ;\n\nVF_REST: /(?s).*/ ;\n"
+
+
+def harness_fault(e):
+    """a NameError / ImportError raised from a frame of the harness itself is a bug of the harness (exit 2), never an observed outcome"""
+    if not isinstance(e, (NameError, ImportError)):
+        return False
+    tb = e.__traceback__
+    if tb is None:
+        return False
+    while tb.tb_next is not None:
+        tb = tb.tb_next
+    here = os.path.dirname(os.path.abspath(__file__))
+    return os.path.abspath(tb.tb_frame.f_code.co_filename).startswith(here + os.sep)
 
 
 class Typed:
